@@ -508,8 +508,23 @@ def rule_collected_then_filed(chk, fb, rid, floor=1):
         loops = None
         for bi, t in fl.calls(lambda t: t.get("fn", "").endswith("::next") and "Iter" in t.get("fn", "")):
             ety = fb.ty(b["locals"][t["dest"]["l"]]["t"])
-            if "structs::" not in ety or any(a[0] == "arg" for a in fl.atoms(t["args"][0])):
-                continue  # not model objects, or a list owned by the caller
+            if "structs::" not in ety:
+                continue  # not model objects
+            src_args = sorted(a[1] for a in fl.atoms(t["args"][0]) if a[0] == "arg")
+            if src_args:
+                # a list handed in by the caller: it counts when a reader function collected it locally and passes it to this
+                # private helper (the distributing loop was extracted); lists owned further up are not this rule's business
+                local_at_caller = False
+                for c, cbi in sorted(fb.callers.get(d, ())):
+                    cb = fb.mir.get(c)
+                    if not cb or not c.startswith("reader::"):
+                        continue
+                    ct = cb["blocks"][cbi]["t"]
+                    k = src_args[0] - 1
+                    if k < len(ct["args"]) and not any(a[0] == "arg" for a in Flow(fb, cb).atoms(ct["args"][k])):
+                        local_at_caller = True
+                if not local_at_caller or b.get("vis") == "pub":
+                    continue
             if cfg is None:
                 cfg = CFG(b)
                 loops = {}
